@@ -210,7 +210,11 @@ impl Network {
             .node(service_trip)
             .as_service_trip()
             .maximal_formation_count();
-        limit_of_type.map(|l| l.min(limit_of_node.unwrap_or(l)))
+        match (limit_of_type, limit_of_node) {
+            (Some(l1), Some(l2)) => Some(l1.min(l2)),
+            (Some(l), None) | (None, Some(l)) => Some(l),
+            (None, None) => None,
+        }
     }
 
     pub fn get_depot_idx(&self, node_idx: NodeIdx) -> DepotIdx {
